@@ -517,7 +517,24 @@ def rule_scheduled_job_order(ctx: Ctx) -> None:
               "peek_next_event_dt does not return the earliest scheduled time", key_text="peek_next reads min")
 
 
+def rule_time_passthrough(ctx: Ctx, rule: str = "C13.4") -> None:
+    """The time a job is queued under is the time the caller asked for: schedule() hands its `when` to the queue unchanged and
+    SchedulerQueue.push stores it unchanged (a rounded or converted time lets a job run before, or after, its scheduled time)."""
+    sch = ctx.func(f"{DISP}.EventDispatcher.schedule")
+    push = ctx.func(f"{DISP}.SchedulerQueue.push")
+    for fn, sink in ((sch, "_scheduler_queue.push"), (push, "ScheduledJob")):
+        when = fn.params[1]
+        rew = [s for s in A.stores(fn) if isinstance(s.target, ast.Name) and s.target.id == when]
+        calls = [c for c in A.func_calls(fn, shallow=False) if (A.call_name(c) or "").endswith(sink)]
+        passed = bool(calls) and all(any(A.dotted(a) == when for a in list(c.args[:1]) + [k.value for k in c.keywords if k.arg == "when"]) for c in calls)
+        ctx.check(passed and not rew, rule, f"{fn.name}() queues the job under exactly the time it was given", fn, rew[0].stmt if rew else (calls[0] if calls else fn.node),
+                  f"{sink}({when}, ...) with '{when}' never reassigned", f"the job's time is {'rewritten' if rew else 'not passed on'} before it is queued "
+                  f"('{ast.unparse(rew[0].stmt)[:70] if rew else ''}'): a conversion that loses precision queues the job earlier than requested and it "
+                  "runs before its scheduled time", key_text=f"time passthrough {fn.name}")
+
+
 def run(ctx: Ctx) -> None:
+    rule_time_passthrough(ctx)
     heaps = rule_heap_discipline(ctx)
     rule_final_drain(ctx, heaps)
     rule_dispatch_scheduled(ctx)
